@@ -24,7 +24,7 @@ for _v in ("OMP_NUM_THREADS", "OPENBLAS_NUM_THREADS", "MKL_NUM_THREADS"):
 if hasattr(sys, "set_int_max_str_digits"):
     sys.set_int_max_str_digits(0)
 
-RULE = ("first the committed witnesses of every repaired defect (D30, D36, D37) and of the known findings (D34, D35); then "
+RULE = ("first the committed witnesses of every repaired defect (D30, D36, D37, D52) and of the known findings (D34, D35); then "
         "(a) random small hypergraphs (3-8 nodes with arbitrary int/str labels, 1-9 hyperedges of size 2..5, weighted or "
         "not, 0-2 isolated nodes, at least K non-isolated nodes; some built through a detour: temporary hyperedges / a "
         "temporary node inserted midway and removed again), K in {2,3}, seed, n_realizations in {1,3}, max_iter "
@@ -35,9 +35,18 @@ RULE = ("first the committed witnesses of every repaired defect (D30, D36, D37) 
         "(b) degenerate hypergraphs: one dominant hyperedge of size 2..8 plus 0-2 sub-hyperedges and 0-3 isolated nodes, K from "
         "2 up to the number of covered nodes (beyond it with a random start), default threshold mostly, several seeds per "
         "hypergraph, run through fit and step by step with the validity oracles on the state after EVERY sweep; "
-        "(c) exact dyadic states with zero entries / columns with a single non-zero entry on the object's attributes. "
+        "(c) exact dyadic states with zero entries / columns with a single non-zero entry on the object's attributes; "
+        "(d) sessions: ONE HySC object (seed incl. 0, n_realizations 1/3/10) or ONE HypergraphMT object fitted 3-6 times on two "
+        "hypergraphs A and B (A from class (a) with its detour; B another random / degenerate hypergraph, a different object "
+        "with the same nodes and number of hyperedges, or A.copy()), with K, weighted_L resp. K, seed (also None and 0), "
+        "normalizeU, baseline_r0 drawn per call, 40 % of the calls repeating an earlier call of the session; between calls "
+        "the harness may overwrite every array returned so far, change A or B in place (add / replace / reweight / remove and "
+        "re-insert a hyperedge, possibly taking in an isolated node), re-seed numpy's global generator, set a public "
+        "attribute of the model (seed, n_realizations, max_iter, min_value_par); every call is compared with the same call "
+        "on a fresh model object and a freshly rebuilt hypergraph. "
         "A case is distinct by (hyperedges, weights, isolated nodes, K, seed, configuration); non-trivial when at least two "
-        "EM sweeps ran, the log-likelihood strictly increased at least once and the returned u has two different non-zero rows")
+        "EM sweeps ran, the log-likelihood strictly increased at least once and the returned u has two different non-zero rows; "
+        "a session is non-trivial when it has a repeated call and two calls with different results")
 ASSUMPTIONS = [
     "hyperedges have size >= 2 (size 1 has no affinity row), weights > 0, at least K non-isolated nodes (KMeans needs n_samples >= n_clusters)",
     "fix_communities, fix_w, gammaU, gammaW, initialize_u0/w0, out_inference at their defaults; check_convergence_every = 1",
@@ -45,6 +54,8 @@ ASSUMPTIONS = [
     "a decrease of the recorded log-likelihood is tolerated only in a sweep with a clamp/repair event (D34) or in an ill-conditioned state (min positive u < 1e-20 or max w > 1e10, D35); both classes are replayed from committed witnesses",
     "the state after sweep t of a realisation is what fit returns for max_iter = t+1, n_realizations = 1 and that realisation's seed: an invalid intermediate state is reported only after fit itself was run on that configuration and returned / raised the same",
     "a hypergraph object that was fitted before (other seed) or changed in place gives the same result as a freshly built hypergraph with the same insertion history",
+    "run twice = two fresh model objects, the same object twice in a row, the same object with other calls (other hypergraph, K, seed, options) in between, in one process: every call of fit must return exactly what a fresh object returns for the same arguments and the current content of the hypergraph (HySC: K-means is seeded anew from self.seed in every call; HypergraphMT: _check_fit_params rebuilds all state and, since the D52 repair, fit resets maxL); arrays returned earlier stay as they were; fit leaves the hypergraph (listings, weights incl. number types, every attribute) untouched",
+    "a session call whose reference call on a fresh object raises (K-means, ill-conditioned state) ends the session without a verdict: failures of a single call are the business of classes (a)-(c)",
 ]
 TRUSTED = [
     "k-means (sklearn), np.linalg.eig, scipy.optimize.root (Lagrange multiplier), RandomState draws: parameters of the model, their values are read from the running implementation",
@@ -279,11 +290,19 @@ def build(case, mutated=False):
     return h
 
 
-def mutate(case, h):
-    mu = case["mutate"]
+def apply_mu(mu, h):
+    """one in-place change of a hypergraph"""
     kind = mu.get("kind", "add")
     if kind == "reweight":
         h.set_weight(tuple(mu["edge"]), mu["weight"])
+        return
+    if kind == "readd":
+        # the same hyperedge removed and inserted again: same content, new internal id, last in every listing
+        h.remove_edge(tuple(mu["edge"]))
+        if mu.get("weight") is not None:
+            h.add_edge(tuple(mu["edge"]), weight=mu["weight"])
+        else:
+            h.add_edge(tuple(mu["edge"]))
         return
     if kind == "replace":
         h.remove_edge(tuple(mu["edge"]))
@@ -293,15 +312,21 @@ def mutate(case, h):
         h.add_edge(tuple(mu["add"]))
 
 
-def mutated_content(case):
-    """(edges, weights) after the in-place change"""
-    mu = case["mutate"]
+def content_after(edges, ws, mu):
+    """(edges, weights) after the in-place change `mu`"""
     kind = mu.get("kind", "add")
-    edges = [tuple(e) for e in case["edges"]]
-    ws = list(case["weights"]) if case.get("weights") is not None else None
+    edges = [tuple(e) for e in edges]
+    ws = list(ws) if ws is not None else None
     if kind == "reweight":
         j = [skey(e) for e in edges].index(skey(mu["edge"]))
         ws[j] = mu["weight"]
+        return edges, ws
+    if kind == "readd":
+        j = [skey(e) for e in edges].index(skey(mu["edge"]))
+        e = edges.pop(j)
+        edges.append(e)
+        if ws is not None:
+            ws.append(ws.pop(j))
         return edges, ws
     if kind == "replace":
         j = [skey(e) for e in edges].index(skey(mu["edge"]))
@@ -312,6 +337,15 @@ def mutated_content(case):
     if ws is not None:
         ws.append(mu["weight"])
     return edges, ws
+
+
+def mutate(case, h):
+    apply_mu(case["mutate"], h)
+
+
+def mutated_content(case):
+    """(edges, weights) after the in-place change"""
+    return content_after(case["edges"], case.get("weights"), case["mutate"])
 
 
 def new_model(case):
@@ -1281,6 +1315,24 @@ def near_threshold(S, ms, minv):
     return False
 
 
+def hysc_shape(X, N, K, non_iso):
+    """the property's words on the matrix HySC.fit returns; a text or None"""
+    import numpy as np
+    if X.shape != (N, K):
+        return f"HySC.fit returns shape {X.shape}, expected {(N, K)}"
+    if not np.isin(X, [0, 1]).all():
+        return "HySC.fit returns entries other than 0/1"
+    bad = None
+    if non_iso is not None:
+        for i in range(N):
+            s = int(X[i].sum())
+            if i in non_iso and s != 1:
+                bad = f"HySC.fit: non-isolated node index {i} has {s} ones"
+            if i not in non_iso and s != 0:
+                bad = f"HySC.fit: isolated node index {i} has {s} ones"
+    return bad
+
+
 def check_hysc(ctx, drv, case, h, st):
     import numpy as np
     a = run_hysc(case, h, tap=True)
@@ -1297,18 +1349,7 @@ def check_hysc(ctx, drv, case, h, st):
         non_iso = sorted(int(mapping.transform([x])[0]) for x in nodes_in_edges)
     except Exception:
         non_iso = None
-    bad = None
-    if X.shape != (N, K):
-        bad = f"HySC.fit returns shape {X.shape}, expected {(N, K)}"
-    elif not np.isin(X, [0, 1]).all():
-        bad = "HySC.fit returns entries other than 0/1"
-    elif non_iso is not None:
-        for i in range(N):
-            s = int(X[i].sum())
-            if i in non_iso and s != 1:
-                bad = f"HySC.fit: non-isolated node index {i} has {s} ones"
-            if i not in non_iso and s != 0:
-                bad = f"HySC.fit: isolated node index {i} has {s} ones"
+    bad = hysc_shape(X, N, K, non_iso)
     if bad:
         ctx.violation(case, bad)
     if b[0] == "exc" or not np.array_equal(X, np.asarray(b[1])):
@@ -1325,6 +1366,473 @@ def check_hysc(ctx, drv, case, h, st):
         if ans[1] != want:
             ctx.disagree(case, f"HySC assembly: model {ans[1]}, implementation {want}")
         ctx.count("hysc_assemblies_compared")
+
+
+# ------------------------------------------------------------------------------------------
+# sessions: ONE long-lived model object fitted several times ("run twice with the same seed" in every sense)
+#
+# a session case = {"session": "hysc" | "mt", "ctor": {...}, "graphs": {"A": g, "B": g}, "steps": [...]}; g has the
+# hypergraph part of a case (edges, weights, isolated, detour).  Steps:
+#   {"op": "fit", "g": name, ...arguments of fit}   a call of fit on the session's object
+#   {"op": "mutate", "g": name, "mu": {...}}        in-place change of that hypergraph (the ONLY way a session changes one)
+#   {"op": "scribble"}                              the harness overwrites every array a fit of this session returned
+#   {"op": "reseed_global", "value": n}             numpy's global generator is re-seeded (results must not depend on it)
+# Demand for every fit: it returns exactly what the same call returns on a FRESH model object and a freshly built equal
+# hypergraph (same insertion history) - whatever the object was fitted on before; fresh objects agree among themselves;
+# the hypergraphs of the session are left untouched by fit; results returned earlier are not overwritten by later fits.
+
+SCRIBBLE = 7.25
+G_KEYS = ("edges", "weights", "isolated", "node_order", "detour")
+
+
+def hdigest(h):
+    """what a user can see of a hypergraph (listings in their order, number types included) and the value of every
+    attribute it has"""
+    out = {}
+    probes = (("get_nodes", lambda: h.get_nodes()), ("get_edges", lambda: h.get_edges()), ("get_weights", lambda: h.get_weights()),
+              ("is_weighted", lambda: h.is_weighted()),
+              ("incident edges", lambda: [(n, h.get_incident_edges(n)) for n in h.get_nodes()]),
+              ("metadata", lambda: (h.get_all_nodes_metadata(), h.get_all_edges_metadata(), h.get_hypergraph_metadata())))
+    for name, f in probes:
+        try:
+            out[name] = repr(f())
+        except Exception as ex:  # noqa: BLE001
+            out[name] = "raises " + type(ex).__name__
+    try:
+        for k, v in vars(h).items():
+            out["attribute " + k] = repr(v)
+    except Exception:  # noqa: BLE001
+        pass
+    return out
+
+
+def hdiff(before, after):
+    """what of the digest taken before is different now (attributes that did not exist before are not looked at)"""
+    for k, v in before.items():
+        if after.get(k) != v:
+            return f"{k}: {v[:120]} -> {str(after.get(k))[:120]}"
+    return None
+
+
+def g_of(case):
+    return {k: case[k] for k in G_KEYS if k in case}
+
+
+def g_spec(graphs, name):
+    """the insertion history behind a hypergraph of a session (a copy has the history of its source)"""
+    g = graphs[name]
+    return graphs[g["copy_of"]] if "copy_of" in g else g
+
+
+def build_g(graphs, name):
+    g = graphs[name]
+    return build(graphs[g["copy_of"]]).copy() if "copy_of" in g else build(g)
+
+
+def covered(edges):
+    return set(x for e in edges for x in e)
+
+
+def gen_mu(rng, edges, weights, serial, iso=()):
+    """an in-place change that does not shrink the set of covered nodes: add / replace (counts stay) / reweight (counts
+    stay) / readd (content stays, internal id and position change); a new hyperedge may take in a node that was isolated
+    so far (the number of nodes stays, the set of isolated nodes changes)"""
+    nodes = sorted(covered(edges), key=repr)
+    have = set(skey(e) for e in edges)
+    weighted = weights is not None
+    kind = rng.choice(["add", "replace", "replace", "readd"] + (["reweight", "reweight"] if weighted else []))
+    still_iso = [x for x in iso if x not in set(nodes)]
+    new_e = None
+    for _ in range(8):
+        e = tuple(rng.sample(nodes, rng.randint(2, min(4, len(nodes)))))
+        if still_iso and rng.random() < 0.3:
+            e = (e + (rng.choice(still_iso),))[-min(4, len(e) + 1):]
+        if skey(e) not in have:
+            new_e = e
+            break
+    j = rng.randrange(len(edges))
+    if kind == "reweight":
+        return {"kind": "reweight", "edge": edges[j], "weight": rng.choice([x for x in WEIGHTS_WIDE if x != weights[j]])}
+    if kind == "readd":
+        return {"kind": "readd", "edge": edges[j], "weight": weights[j] if weighted else None}
+    if kind == "replace" and new_e is not None and len(edges) >= 2:
+        rest = covered([e for i, e in enumerate(edges) if i != j]) | set(new_e)
+        if len(rest) >= len(nodes):
+            return {"kind": "replace", "edge": edges[j], "add": new_e, "weight": rng.choice(WEIGHTS_WIDE) if weighted else None}
+    if new_e is None:
+        new_e = (nodes[0], f"zz_new{serial}" if isinstance(nodes[0], str) else 77 + serial)
+    return {"kind": "add", "add": new_e, "weight": rng.choice(WEIGHTS_WIDE) if weighted else None}
+
+
+def gen_session(rng, kind):
+    a = gen(rng)
+    gA = g_of(a)
+    r = rng.random()
+    if r < 0.35:
+        gB = g_of(gen(rng))
+    elif r < 0.55:
+        gB = gen_small(rng)
+    else:
+        # ANOTHER object with the same nodes and the same number of hyperedges (cheap signatures of the two agree)
+        mu = None
+        for _ in range(6):
+            mu = gen_mu(rng, gA["edges"], gA["weights"], 0, gA["isolated"])
+            if mu["kind"] in ("replace", "reweight"):
+                break
+        e2, w2 = content_after(gA["edges"], gA["weights"], mu)
+        if rng.random() < 0.5:
+            z = list(zip(e2, w2 if w2 is not None else [None] * len(e2)))
+            rng.shuffle(z)
+            e2, w2 = [x for x, _ in z], ([y for _, y in z] if w2 is not None else None)
+        gB = {"edges": e2, "weights": w2, "isolated": list(gA["isolated"]), "node_order": list(gA.get("node_order", []))}
+    if rng.random() < 0.15:
+        gB = {"copy_of": "A"}        # B = A.copy() taken before anything else happens; A may be changed afterwards
+    graphs = {"A": gA, "B": gB}
+    content = {n: (list(g_spec(graphs, n)["edges"]), g_spec(graphs, n)["weights"]) for n in graphs}
+    seeds = [rng.randint(1, 10 ** 6), rng.randint(1, 10 ** 6)]
+    if kind == "hysc":
+        ctor = {"seed": rng.choice([0, 10] + seeds + seeds), "n_realizations": rng.choice([1, 3, 10, 10])}
+    else:
+        ctor = {"n_realizations": rng.choice([1, 2, 2, 3]), "max_iter": rng.choice([1, 2, 5, 8]),
+                "min_value_par": rng.choice([1e-5, 1e-5, 0.0])}
+    steps, fits, serial = [], [], 0
+    n_fits = rng.randint(3, 6)
+    while len(fits) < n_fits:
+        if fits and rng.random() < 0.4:
+            st = dict(rng.choice(fits))          # the same call again (the hypergraph may have been changed meanwhile)
+        else:
+            g = rng.choice("AAB")
+            cov = len(covered(content[g][0]))
+            if kind == "hysc":
+                st = {"op": "fit", "g": g, "K": rng.randint(2, min(cov, 4)), "weighted_L": rng.random() < 0.3}
+            else:
+                base = rng.random() < 0.5
+                st = {"op": "fit", "g": g, "K": rng.randint(2, min(cov, 3)) if base else rng.randint(2, min(cov + 1, 4)),
+                      "seed": rng.choice([None, 0] + seeds + seeds), "normalizeU": rng.random() < 0.4, "baseline_r0": base}
+        steps.append(st)
+        fits.append(st)
+        if rng.random() < 0.3:
+            steps.append({"op": "scribble"})
+        if rng.random() < 0.25:
+            g = rng.choice("AAB")
+            serial += 1
+            mu = gen_mu(rng, content[g][0], content[g][1], serial, g_spec(graphs, g)["isolated"])
+            content[g] = content_after(content[g][0], content[g][1], mu)
+            steps.append({"op": "mutate", "g": g, "mu": mu})
+        if rng.random() < 0.15:
+            steps.append({"op": "reseed_global", "value": rng.randint(0, 2 ** 31 - 1)})
+        if rng.random() < 0.15:
+            # a public attribute of the model is set between two calls (the next calls run with it)
+            if kind == "hysc":
+                attr = rng.choice(["seed", "seed", "n_realizations"])
+                val = rng.choice([0] + seeds) if attr == "seed" else rng.choice([1, 3, 10])
+            else:
+                attr = rng.choice(["max_iter", "n_realizations", "min_value_par"])
+                val = {"max_iter": rng.choice([1, 2, 5, 8]), "n_realizations": rng.choice([1, 2, 3]),
+                       "min_value_par": rng.choice([1e-5, 0.0, 1e-3])}[attr]
+            steps.append({"op": "set", "attr": attr, "value": val})
+    return {"session": kind, "ctor": ctor, "graphs": graphs, "steps": steps}
+
+
+def sess_model(kind, ctor):
+    if kind == "hysc":
+        from hypergraphx.communities.hy_sc.model import HySC
+        return HySC(seed=ctor["seed"], n_realizations=ctor["n_realizations"])
+    return new_model(ctor)
+
+
+def sess_fit(kind, m, h, st):
+    """one call of fit on the object m: ('ok', arrays..., ) as run_fit / run_hysc give it, or ('exc', text)"""
+    try:
+        with quiet(), limit(CALL_TIMEOUT):
+            if kind == "hysc":
+                X = m.fit(h, K=st["K"], weighted_L=st["weighted_L"])
+                return ("ok", X)
+            u, w, L = m.fit(h, K=st["K"], seed=st["seed"], normalizeU=st["normalizeU"], baseline_r0=st["baseline_r0"])
+            ti = m.train_info
+            rows = [(int(a), int(b), int(c), float(d), bool(e)) for a, b, c, d, e in
+                    zip(ti["realization"], ti["seed"], ti["iter"], ti["loglik"], ti["reached_convergence"])]
+            return ("ok", u, w, float(L), rows, float(m.maxL))
+    except Timeout:
+        return ("exc", "timeout")
+    except Exception as ex:  # noqa: BLE001
+        return ("exc", f"{type(ex).__name__}: {ex}")
+
+
+def sess_same(kind, a, b):
+    import numpy as np
+    if a[0] != b[0]:
+        return False
+    if a[0] == "exc":
+        return a[1].split(":")[0] == b[1].split(":")[0]
+    if kind == "hysc":
+        return bool(np.array_equal(np.asarray(a[1]), np.asarray(b[1])))
+    return same_fit(a, b) and a[5] == b[5]
+
+
+def sess_diff(kind, a, b):
+    """first difference between what the session's object returned (a) and the fresh reference (b), as text"""
+    import numpy as np
+    if a[0] == "exc" or b[0] == "exc":
+        return f"{'raises ' + a[1] if a[0] == 'exc' else 'returns'} / fresh object {'raises ' + b[1] if b[0] == 'exc' else 'returns'}"
+    names = ["matrix"] if kind == "hysc" else ["u", "w"]
+    for nm, x, y in zip(names, a[1:], b[1:]):
+        x, y = np.asarray(x), np.asarray(y)
+        if x.shape != y.shape:
+            return f"{nm} has shape {x.shape}, fresh object {y.shape}"
+        if not np.array_equal(x, y):
+            i = tuple(int(v) for v in np.argwhere(~((x == y) | ((x != x) & (y != y))))[0])
+            return f"{nm}{list(i)} = {x[i].item()!r}, fresh object {y[i].item()!r} ({int((x != y).sum())} entries differ)"
+    if kind == "mt":
+        if a[3] != b[3]:
+            return f"maxL {a[3]!r}, fresh object {b[3]!r}"
+        if a[4] != b[4]:
+            return f"train_info has {len(a[4])} rows {a[4][:2]}..., fresh object {len(b[4])} rows {b[4][:2]}..."
+        if a[5] != b[5]:
+            return f"attribute maxL {a[5]!r}, fresh object {b[5]!r}"
+    return "?"
+
+
+def arrays_of(kind, res):
+    import numpy as np
+    return [x for x in (res[1:2] if kind == "hysc" else res[1:3]) if isinstance(x, np.ndarray)]
+
+
+def run_session(ctx, drv, case):
+    """executes a session; every violation carries the prefix of the session that shows it (replayable)"""
+    import numpy as np
+    kind, ctor, steps = case["session"], case["ctor"], case["steps"]
+    graphs, muts = {}, {}
+    try:
+        with quiet(), limit(CALL_TIMEOUT):
+            for name, g in case["graphs"].items():
+                # a copy is taken from the session's own object A (not from a rebuilt one), before any call
+                graphs[name] = graphs[g["copy_of"]].copy() if "copy_of" in g else build(g)
+                muts[name] = []
+            m = sess_model(kind, ctor)
+            ctor = dict(ctor)
+    except Exception as ex:  # noqa: BLE001
+        ctx.violation(case, f"cannot build the hypergraphs / the model of a session: {type(ex).__name__}: {ex}")
+        return
+    held = []        # [arrays as returned, copies taken at return, scribbled?, number of the fit]
+    firstref = {}    # (graph, number of changes so far, arguments) -> reference result of the first fresh object
+    seen = {}        # the same key -> number of calls made on the session's object
+    results, calls_L = [], []
+    n_fit, prev_key, ok, last_fit = 0, None, True, None
+    key = repr(hgxv.jsonable(case))
+    for j, st in enumerate(steps):
+        prefix = {**case, "steps": steps[: j + 1]}
+        op = st["op"]
+        if op == "mutate":
+            try:
+                with quiet():
+                    apply_mu(st["mu"], graphs[st["g"]])
+                muts[st["g"]].append(st["mu"])
+                ctx.count("session_inplace_changes")
+            except Exception as ex:  # noqa: BLE001
+                ctx.violation(prefix, f"session: cannot change hypergraph {st['g']} in place ({st['mu']}): {type(ex).__name__}: {ex}")
+                ok = False
+                break
+            continue
+        if op == "scribble":
+            for hd in held:
+                if not hd[2]:
+                    for x in hd[0]:
+                        try:
+                            x[...] = SCRIBBLE if x.dtype.kind == "f" else 7
+                        except Exception:  # noqa: BLE001
+                            pass
+                    hd[2] = True
+            ctx.count("session_scribbles")
+            if kind == "mt" and last_fit is not None:
+                # the object's own record of the call (its training table, maxL) is not made of the arrays handed out
+                try:
+                    ti = m.train_info
+                    rows = [(int(a), int(b), int(c), float(d), bool(e)) for a, b, c, d, e in
+                            zip(ti["realization"], ti["seed"], ti["iter"], ti["loglik"], ti["reached_convergence"])]
+                    now = (rows, float(m.maxL))
+                except Exception as ex:  # noqa: BLE001
+                    now = f"{type(ex).__name__}: {ex}"
+                if now != last_fit:
+                    ctx.violation(prefix, "overwriting the arrays (u, w) that HypergraphMT.fit returned changes the object's train_info / maxL: "
+                                          f"{str(last_fit)[:150]} -> {str(now)[:150]}")
+                    ok = False
+                    break
+            continue
+        if op == "reseed_global":
+            np.random.seed(st["value"] % (2 ** 32))
+            continue
+        if op == "set":
+            try:
+                setattr(m, st["attr"], st["value"])
+                ctor[st["attr"]] = st["value"]
+                ctx.count("session_attributes_set")
+            except Exception:  # noqa: BLE001
+                break
+            continue
+        # ---- a call of fit on the session's object ------------------------------------------------
+        g = st["g"]
+        h = graphs[g]
+        n_fit += 1
+        args = {k: v for k, v in st.items() if k not in ("op",)}
+        k_ = (g, len(muts[g]), repr(sorted(args.items())), repr(sorted(ctor.items())))
+        before = {name: hdigest(x) for name, x in graphs.items()}
+        res = sess_fit(kind, m, h, st)
+        after = {name: hdigest(x) for name, x in graphs.items()}
+        for name in graphs:
+            d = hdiff(before[name], after[name])
+            if d:
+                ctx.violation(prefix, f"{'HySC' if kind == 'hysc' else 'HypergraphMT'}.fit (call {n_fit} of the session, on hypergraph {g}) "
+                                      f"changes {'the hypergraph it is given' if name == g else 'another hypergraph (' + name + ')'}: {d}")
+                ok = False
+        # reference: the same call on a fresh model object and a freshly built equal hypergraph (same history)
+        try:
+            with quiet(), limit(CALL_TIMEOUT):
+                h0 = build_g(case["graphs"], g)
+                for mu in muts[g]:
+                    apply_mu(mu, h0)
+                m0 = sess_model(kind, ctor)
+        except Exception:  # noqa: BLE001
+            break
+        ref = sess_fit(kind, m0, h0, st)
+        if k_ in firstref and not sess_same(kind, firstref[k_], ref):
+            ctx.violation(prefix, f"two FRESH {'HySC' if kind == 'hysc' else 'HypergraphMT'} objects, same hypergraph, same arguments {args}: "
+                                  f"{sess_diff(kind, ref, firstref[k_])}")
+            ok = False
+        firstref.setdefault(k_, ref)
+        if ref[0] == "exc":
+            # the call itself fails (K-means / an ill-conditioned state): the business of the other stages, not of the session
+            ctx.count("session_reference_call_fails")
+            break
+        rep = seen.get(k_, 0) > 0
+        between = rep and prev_key != k_
+        what = ("the SAME call was made on this object before" if rep else
+                "first call with these arguments on this hypergraph content") + \
+               (", other calls in between" if between else "") + \
+               (", arrays returned earlier were overwritten by the caller" if any(hd[2] for hd in held) else "") + \
+               (f", hypergraph {g} was changed in place {len(muts[g])}x before" if muts[g] else "")
+        name = "HySC" if kind == "hysc" else "HypergraphMT"
+        if not sess_same(kind, res, ref):
+            ctx.violation(prefix, f"{name}.fit, call {n_fit} on ONE {name} object ({args}; {what}), differs from the same call on a "
+                                  f"fresh object: {sess_diff(kind, res, ref)}")
+            ok = False
+        elif kind == "hysc":
+            X = np.asarray(res[1])
+            try:
+                mp = h.get_mapping()
+                edges_now = g_spec(case["graphs"], g)["edges"]
+                wts = g_spec(case["graphs"], g)["weights"]
+                for mu in muts[g]:
+                    edges_now, wts = content_after(edges_now, wts, mu)
+                non_iso = sorted(int(mp.transform([x])[0]) for x in covered(edges_now))
+                bad = hysc_shape(X, int(h.num_nodes()), st["K"], non_iso)
+            except Exception:  # noqa: BLE001
+                bad = None
+            if bad:
+                ctx.violation(prefix, bad + f" (weighted_L={st['weighted_L']}, call {n_fit} of a session)")
+                ok = False
+        # results handed out earlier are still what they were (unless the harness itself overwrote them)
+        for hd in held:
+            if not hd[2] and not all(np.array_equal(x, c) for x, c in zip(hd[0], hd[1])):
+                ctx.violation(prefix, f"{name}.fit, call {n_fit} of the session, overwrites the arrays that call {hd[3]} on the same object returned")
+                ok = False
+                hd[2] = True
+        if res[0] == "ok":
+            arrs = arrays_of(kind, res)
+            held.append([arrs, [x.copy() for x in arrs], False, n_fit])
+            results.append(repr([np.asarray(x).tolist() for x in arrs]))
+            if kind == "mt":
+                last_fit = (res[4], res[5])
+                last = {}
+                for (r, sd, it, ll, cv) in res[4]:
+                    last[r] = ll
+                calls_L.append(([last[r] for r in sorted(last)], res[3]))
+        ctx.count(f"session_fits_{kind}")
+        if rep:
+            ctx.count("session_repeated_calls" + ("_after_other_calls" if between else "_back_to_back"))
+        if prev_key is not None and prev_key[0] != g:
+            ctx.count("session_fits_after_a_fit_on_another_hypergraph")
+        if kind == "mt":
+            ctx.count(f"session_mt_fits_normU{int(st['normalizeU'])}_baseline{int(st['baseline_r0'])}")
+        else:
+            ctx.count(f"session_hysc_fits_weightedL{int(st['weighted_L'])}")
+        seen[k_] = seen.get(k_, 0) + 1
+        prev_key = k_
+        if not ok:
+            break
+    # the object-level bookkeeping of the session against the model (C17_session_fresh): what every call returns as maxL
+    if ok and kind == "mt" and drv is not None and calls_L and all(math.isfinite(x) for ls, L in calls_L for x in ls + [L]):
+        a = drv.ask(" ".join(["R", "session", "fixed", q(-INF), ";".join(enc_vec(ls, q) for ls, _ in calls_L)]))
+        got = [t.split(":")[0] for t in a.split(";")]
+        want = [q(L) for _, L in calls_L]
+        if got != want:
+            ctx.disagree(case, f"session of {len(calls_L)} calls on one HypergraphMT object: model returns maxL {got}, implementation {want}")
+        ctx.count("session_bookkeeping_compared")
+    ctx.case("session:" + key, ok and n_fit >= 2 and len(set(results)) >= 2 and any(v >= 2 for v in seen.values()), sample=case)
+
+
+def norm_session(case):
+    """a session case after a JSON round trip: hyperedges are tuples again"""
+    case = dict(case)
+
+    def tg(g):
+        g = dict(g)
+        if "copy_of" in g:
+            return g
+        g["edges"] = [tuple(e) for e in g["edges"]]
+        if g.get("detour"):
+            g["detour"] = {**g["detour"], "edges": [tuple(e) for e in g["detour"]["edges"]]}
+        return g
+    case["graphs"] = {n: tg(g) for n, g in case["graphs"].items()}
+    steps = []
+    for st in case["steps"]:
+        st = dict(st)
+        if st.get("op") == "mutate":
+            st["mu"] = {k: (tuple(v) if k in ("edge", "add") and v is not None else v) for k, v in st["mu"].items()}
+        steps.append(st)
+    case["steps"] = steps
+    return case
+
+
+# the committed witness of the repaired defect D52 (HypergraphMT.maxL was never reset): a fit on a hypergraph with a small
+# likelihood after a fit on one with a large likelihood returned the earlier call's (u, w, maxL)
+D52_SESSION = {
+    "session": "mt", "ctor": {"n_realizations": 2, "max_iter": 5, "min_value_par": 1e-5},
+    "graphs": {"A": {"edges": [(0, 1, 2), (1, 2), (2, 3), (0, 3, 4), (4, 5), (1, 5, 6), (0, 6)], "weights": None, "isolated": [7]},
+               "B": {"edges": [("a", "b"), ("b", "c", "d")], "weights": [1.5, 2], "isolated": []}},
+    "steps": [{"op": "fit", "g": "B", "K": 2, "seed": 5, "normalizeU": False, "baseline_r0": True},
+              {"op": "fit", "g": "A", "K": 2, "seed": 5, "normalizeU": False, "baseline_r0": True},
+              {"op": "fit", "g": "A", "K": 3, "seed": 6, "normalizeU": True, "baseline_r0": False},
+              {"op": "scribble"},
+              {"op": "fit", "g": "A", "K": 3, "seed": 6, "normalizeU": True, "baseline_r0": False}],
+}
+
+
+def replay_d52(ctx, drv):
+    sub = hgxv.Ctx(ctx.prop, ctx.tier, ctx.seed)
+    run_session(sub, drv, D52_SESSION)
+    for c, wh in sub.violations + sub.disagreements:
+        # how the defect showed on this witness: the second call returns the first call's u (of another hypergraph: another shape)
+        if "fresh object: u has shape" in wh or "fresh object: maxL" in wh:
+            ctx.violation(c, "REGRESSION of the repaired defect D52 (HypergraphMT.fit did not reset maxL: a model fitted before "
+                             f"returned the earlier call's parameters) on its committed witness: {wh}")
+        else:   # something else breaks on this input: an ordinary violation
+            ctx.violation(c, f"{wh} [input: committed witness of the repaired defect D52]")
+    ctx.count("regression_witnesses_replayed")
+    ctx.count("regression_witnesses_D52")
+
+
+def run_sessions(ctx, drv, n_hysc, n_mt):
+    for j in range(n_hysc + n_mt):
+        # interleaved, so that a time cap cuts both kinds alike
+        kind = "mt" if (j * n_mt) // (n_hysc + n_mt) != ((j + 1) * n_mt) // (n_hysc + n_mt) else "hysc"
+        run_session(ctx, drv, gen_session(ctx.rng, kind))
+        ctx.count(f"sessions_{kind}")
+        if ctx.too_many():
+            return
+        if ctx.time_left() is not None and ctx.time_left() < (22 if ctx.tier == "quick" else 300):
+            ctx.count("stopped_early_sessions_done", j + 1)
+            return
 
 
 # ------------------------------------------------------------------------------------------
@@ -1530,7 +2038,7 @@ REGRESSION_SIGNATURE = {     # how the defect showed: anything else on the same 
     "D37": ("does not return", "non-finite"),
     "D36": ("normalizeU=True but non-zero rows", "negative entries"),
 }
-STAGES = [x for x in (os.environ.get("C17_STAGES") or "corpus,known,esymm,sparse,general,small").split(",") if x]   # debugging aid
+STAGES = [x for x in (os.environ.get("C17_STAGES") or "corpus,known,esymm,sparse,sessions,general,small").split(",") if x]   # debugging aid
 
 
 def replay_regressions(ctx, drv):
@@ -1575,6 +2083,7 @@ def run(ctx):
     drv = ctx.driver() if ctx.model_available else None
     if "corpus" in STAGES:
         replay_regressions(ctx, drv)
+        replay_d52(ctx, drv)
     if "known" in STAGES:
         replay_witnesses(ctx, drv)
     if drv is not None and "esymm" in STAGES:
@@ -1597,6 +2106,11 @@ def run(ctx):
             exact("sparse")
             if ctx.too_many():
                 return
+    # (d) sessions on one model object
+    if "sessions" in STAGES:
+        run_sessions(ctx, drv, ctx.scale(26, 400), ctx.scale(12, 180))
+        if ctx.too_many():
+            return
     # (a) the general class
     n = ctx.scale(26, 1400) if "general" in STAGES else 0
     n_exact = ctx.scale(12, 300)
@@ -1618,6 +2132,9 @@ def run(ctx):
 def replay(ctx, case):
     drv = ctx.driver() if ctx.model_available else None
     case = dict(case)
+    if "session" in case:
+        run_session(ctx, drv, norm_session(case))
+        return
     for k in ("realization", "iter", "from", "to", "line", "u", "w", "perm", "exact"):
         case.pop(k, None)
     case["edges"] = [tuple(e) for e in case["edges"]]
